@@ -156,6 +156,34 @@ def search(ctx, N):
                         found += 1
 
 
+def epsalg_scales(ctx, N):
+    """EpsAlg on L + sum_{i<=k} a_i q_i^n scaled by powers of two (exact in binary64): every value returned is the entry of highest even
+    order of the exact-rational table, and the limit is recovered from 2k+1 terms, at every scale (no table difference vanishes)."""
+    from numdifftools.extrapolation import EpsAlg
+    rng = ctx.rng(15)
+    for t in range(N):
+        k = int(rng.integers(1, 5))
+        qs = [Fraction(int(v), 16) for v in rng.choice([-11, -9, -7, -5, -3, 3, 5, 7, 9, 11, 13], size=k, replace=False)]
+        As = [Fraction(int(rng.integers(1, 9)) * int(rng.choice([-1, 1])), 4) for _ in range(k)]
+        L = Fraction(int(rng.integers(-8, 9)), 4)
+        scale = Fraction(1, 2 ** int(rng.choice([0, 20, 45, 60, 100, 150])))
+        exact_terms = [scale * (L + sum(a * q ** n for a, q in zip(As, qs))) for n in range(2 * k + 1)]
+        seq = [float(v) for v in exact_terms]
+        e = EpsAlg()
+        vals = [float(e(s)) for s in seq]
+        ex = exact_eps_table(seq)
+        ctx.count(1)
+        desc = {'k': k, 'scale': float(scale), 'sequence': seq, 'returned': vals}
+        cond = max(abs(Fraction(v)) for v in seq) or Fraction(1)
+        for i in range(0, len(seq), 2):          # after an odd number of terms the highest even-order entry is epsilon_{i}^{(0)}
+            if ex[i] is None:
+                break
+            if abs(Fraction(vals[i]) - ex[i]) > Fraction(1, 10 ** 4) * (abs(ex[i]) + cond * Fraction(1, 10 ** 6)):
+                ctx.violation('epsalg-table', 'EpsAlg after %d terms of a sequence of magnitude %.3g returns %r, the exact epsilon table entry of order %d is %r' % (
+                    i + 1, float(cond), vals[i], i, float(ex[i])), desc)
+                return
+
+
 def run(ctx):
     from numdifftools.extrapolation import EpsAlg
     proof_stage(ctx, 'Props/C14.v')
@@ -216,6 +244,7 @@ def run(ctx):
     ctx.cov['dea_histories_that_raised'] = nraised
     # the property itself says Dea never raises: a raising history is a failing input whatever the model says
     search(ctx, ctx.n(400, 6000) if (nraised or ctx.broken or ctx.thorough) else 120)
+    epsalg_scales(ctx, ctx.n(60, 600))
     ctx.assumptions += ['EpsAlg theorems hold over any field with the 1e-60 guard idealised away (no table difference vanishes); Dea theorems over R / any Ops',
                         'finiteness of Dea\'s outputs for finite float input and agreement with dea3/EpsAlg outside the guards are explored (sweep), not proved']
     return ctx.finish(level='proof', checker_cmd='make -C coq Props/C14.vo + coqc build/cases/C14_*.v',
